@@ -689,7 +689,11 @@ func init() {
 			// events": subscribers that replay what they receive below filtered
 			// nodes, with equal-filter Refilter calls while parent events are in flight
 			t := genC06base(g).(*Tree)
-			sameRefilters(g.Rng, t, 2)
+			if g.Idx%32 == 6 {
+				sameRefilters(g.Rng, t, 2)
+			} else {
+				passersBy(g.Rng, t, 2)
+			}
 			return &CacheScen{Prop: g.Prop, Tree: t}
 		}
 		sc := genCache(g).(*CacheScen)
